@@ -43,7 +43,7 @@ WITNESSES = ["Witness_PaddedUnset", "Witness_KeyOrderNotMarkerOrder", "Witness_S
 def constants(ctx):
     """One TLC run per entry.  thorough: 4 markers with one value per column, and 3 markers with two values."""
     base = {"MaxPk": 3, "PVs": {3, 4, 5}, "Partial": True, "MTypes": {"int"}, "MMaxPk": 1, "MOps": {"get"},
-            "MOrders": {"base_first"}, "MFull": False, "MLayouts": {"keys_first"}, "MLayoutMaxPk": 1}
+            "MOrders": {"base_first"}, "MFull": False, "MLayouts": {"keys_first"}, "MLayoutMaxPk": 1, "MPairTypes": set()}
     if ctx.quick:            # text columns: a non-empty and the EMPTY string (an empty key component is not a missing one)
         return [dict(base, MaxCols=3, NVals=1, NTextVals=2)]
     return [dict(base, MaxCols=4, NVals=1, NTextVals=1), dict(base, MaxCols=3, NVals=2, NTextVals=2)]
